@@ -10,14 +10,16 @@ from . import render_common as rc
 
 LEVEL = "proof"
 ASSUME = ["Coq kernel; extraction; driver glue; hooks", "the indent pass is covered by contract K_indent (generator depth vs. realised column) and the two-layout comparison, not by a theorem",
-          "default brace style; brace-less bodies count as one nesting level (virtual braces)"]
+          "brace-indent style covered: indent_brace (closed form depth*indent_columns + statement-blocks*indent_brace); brace-less bodies count as one nesting level (virtual braces)"]
 
 
 def cfg_fn(r, i):
     ic = r.choice([1, 2, 3, 4, 5, 7, 8, 16])
     iwt = r.choice([0, 0, 1, 2])
     ts = r.choice([ic, 8, 4, 3]) if iwt else 8
-    return "indent_columns=%d\nindent_with_tabs=%d\noutput_tab_size=%d\ninput_tab_size=%d\n" % (ic, iwt, ts, r.choice([4, 8])), "ic%d-iwt%d-ts%d" % (ic, iwt, ts)
+    ib = r.choice([0, 0, 0, 1, 2, 4, ic])
+    return ("indent_columns=%d\nindent_with_tabs=%d\noutput_tab_size=%d\ninput_tab_size=%d\nindent_brace=%d\n" % (ic, iwt, ts, r.choice([4, 8]), ib),
+            "ic%d-iwt%d-ts%d-ib%d" % (ic, iwt, ts, ib))
 
 
 def width(ws, ts):
@@ -35,7 +37,7 @@ def oracle(R, findings):
     if lines is None:
         return
     vals = rc.cfg_values(R.case.cfg_path, R.case.cfg_text)
-    ic, ts = int(vals["indent_columns"]), int(vals["output_tab_size"])
+    ic, ts, ib = int(vals["indent_columns"]), int(vals["output_tab_size"]), int(vals["indent_brace"])
     out = R.out.decode("latin1").split("\n")
     if out and out[-1] == "":
         out = out[:-1]
@@ -48,16 +50,18 @@ def oracle(R, findings):
         if "".join(body.split()) != "".join(ln.toks):
             findings.append(("tokens", "line %d: tokens differ: %r vs %r" % (n + 1, body, " ".join(ln.toks))))
             return
-        want = ln.depth * ic
+        # closed form: one indent_columns per enclosing block, plus indent_brace per enclosing block that belongs to a statement
+        want = ln.depth * ic + ln.nsb * ib
         got = width(ws, ts)
         if got != want:
-            findings.append(("indent|%s|d%d" % (ln.kind, ln.depth), "line %d (%s, depth %d): leading width %d, expected depth x indent_columns = %d: %r"
-                             % (n + 1, ln.kind, ln.depth, got, want, o[:50])))
+            findings.append(("indent|%s|d%d" % (ln.kind, ln.depth), "line %d (%s, depth %d, %d statement blocks): leading width %d, expected depth x indent_columns "
+                             "+ blocks x indent_brace = %d: %r" % (n + 1, ln.kind, ln.depth, ln.nsb, got, want, o[:50])))
 
 
 def run(rep, build, tier, seed):
     r = common.rng(seed, "C18")
-    rep.cov["rule"] = ("generated block-structured C programs (if/else, while, for, do-while, bare blocks, brace-less bodies; depth up to 6) whose input "
+    rep.cov["rule"] = ("generated block-structured C programs (if/else-if/else chains, while, for, do-while, switch/case, bare blocks, brace-less bodies; depth up to 6; "
+                       "braces attached or on their own lines) with indent_brace in {0,1,2,4,indent_columns} and the closed-form column, whose input "
                        "indentation is randomised PER LINE (spaces and tabs), each formatted in two different layouts, x indent_columns in {1,2,3,4,5,7,8,16} x "
                        "indent_with_tabs 0..2 x output_tab_size. Non-trivial = more than 5 chunks were rendered.")
     if build.get("uncrustify") != "ok" or build.get("model") != "ok":
@@ -67,7 +71,9 @@ def run(rep, build, tier, seed):
     cases = []
     pairs = []
     for i in range(ng):
-        lines = progs.program(r, nfunc=r.randint(1, 2), max_depth=r.randint(2, 6), size=r.choice([10, 25, 40]))
+        lines = progs.program(r, nfunc=r.randint(1, 2), max_depth=r.randint(2, 6), size=r.choice([10, 25, 40]), rich=True)
+        if r.random() < 0.5:
+            lines = progs.allman(lines)          # every brace on a line of its own
         cfg, tag = cfg_fn(r, i)
         joined = [progs.join_tokens(r, ln.toks, loose=True) for ln in lines]     # the two layouts differ in indentation only
         a = rc.Case("gen:%d:%s:A" % (i, tag), "C", cfg, progs.layout(r, lines, indent="random", tabs=True, joined=joined).encode("latin1"))
@@ -93,5 +99,4 @@ def run(rep, build, tier, seed):
 
 
 def replay(rp, build):
-    print("(depth information is not stored in the replay: showing the formatted output)")
-    return rc.replay_format(rp, lambda R, f: print(R.out.decode("latin1")))
+    return rc.replay_format(rp, oracle)
